@@ -142,16 +142,16 @@ PROPERTIES = {
         "explanation": "R-COINDEX, R-PASSTHROUGH[sort], R-SORTED, R-TOKEN (sort is part of the layer names: sorted and unsorted results computed together are not mixed), R-BLOCKLABELS (per-block label lists follow the sort flag)",
     },
     "C18": {
-        "rules": [M.rule_blockonly, PR.rule_unpermute, rule_token],
+        "rules": [M.rule_blockonly, PR.rule_unpermute, rule_token, rule_dispatch],
         "thorough": [selftest, seeded_regression],
         "technique": "registry check; CFG dominance of a refusal over graph construction; three-site agreement",
         "level_text": "Static, all-paths: order statistics declare no block/combine decomposition, a refusal dominates graph construction "
                       "unless the plan is blockwise, and the three sites that special-case the extra leading axis agree with the registry. "
                       "Quantile numerics are not decided.",
-        "explanation": "R-BLOCKONLY; R-UNPERMUTE (vector q: rows come back in the order given); R-TOKEN (q / ddof are part of the layer names)",
+        "explanation": "R-BLOCKONLY; R-UNPERMUTE (vector q: rows come back in the order given); R-TOKEN (q / ddof are part of the layer names); R-DISPATCH (quantile / nanquantile are never renamed to a kernel of the other NaN discipline)",
     },
     "C20": {
-        "rules": [M.rule_collide, M.rule_castorder, rule_infresolve, M.rule_varshift, M.rule_accdtype, M.rule_scanacc],
+        "rules": [M.rule_collide, M.rule_castorder, rule_infresolve, M.rule_varshift, M.rule_accdtype, M.rule_scanacc, M.rule_finite],
         "thorough": [selftest, seeded_regression],
         "technique": "sentinel-collision pattern on NaN substitutes; dtype plumbing of the engine wrappers; widening table",
         "level_text": "Static: no all-NaN detector compares a result with its own NaN substitute unless conjoined with a valid-member "
@@ -183,7 +183,7 @@ PROPERTIES = {
         "explanation": "R-COVER, R-KEYS, R-AXISKEY, R-TOKEN, R-LOOPSTORE",
     },
     "C04": {
-        "rules": [rule_algebra, rule_parallel, rule_infresolve, M.rule_subsumed],
+        "rules": [rule_algebra, rule_parallel, rule_infresolve, M.rule_subsumed, M.rule_finite],
         "thorough": [selftest, user_blueprints, seeded_regression],
         "technique": "registry constant-evaluation + table comparison (custom AST checker)",
         "level_text": "Static, all-paths: every registered blueprint's (block kernel, combine, intermediate fill, intermediate dtype, "
